@@ -125,13 +125,12 @@ def shapeOf {β : Type} (m : Mat β) : List Nat := m.map List.length
 def evkShareRow (a sOut e w sIn : α) : α := (e + w * sIn) - a * sOut
 
 /-- `EvaluationKeyGenProtocol.GenShare`.
-    `skInLvl`/`skOutLvl` are the `LevelQ()` of the two secret keys; `w`, `e` are given in the shape
-    of the CRP.  The second test is the code's `shareOut.LevelP() != levelP` with
-    `levelP := shareOut.LevelP()` (it compares the share with itself). -/
-def evkGenShare (skInLvl skOutLvl : Nat) (sIn sOut : α) (crp w e : Mat α) (out : GShare α) :
-    Res (GShare α) :=
+    `skInLvl`/`skOutLvl` (`skInLvlP`/`skOutLvlP`) are the `LevelQ()` (`LevelP()`) of the two secret
+    keys; `w`, `e` are given in the shape of the CRP. -/
+def evkGenShare (skInLvl skOutLvl : Nat) (skInLvlP skOutLvlP : Int) (sIn sOut : α) (crp w e : Mat α)
+    (out : GShare α) : Res (GShare α) :=
   if out.levelQ > min skInLvl skOutLvl then .err
-  else if out.levelP ≠ out.levelP then .err
+  else if out.levelP > min skInLvlP skOutLvlP then .err
   else if out.val.length ≠ crp.length then .err
   else if shapeOf out.val ≠ shapeOf crp then .err
   else .ok { out with val := matMap3 (fun a w e => [evkShareRow a sOut e w sIn]) crp w e }
@@ -158,11 +157,12 @@ def aggRows : Mat (List α) → Mat (List α) → Mat (List α) → Option (Mat 
       | _, _ => none
   | _ :: _, _, _ => none
 
-/-- `EvaluationKeyGenProtocol.AggregateShares(share1, share2, &share3)`: only the levels are
-    compared; the decomposition (shape, `BaseTwoDecomposition`) is not. -/
+/-- `EvaluationKeyGenProtocol.AggregateShares(share1, share2, &share3)`: the levels and the
+    decompositions (`BaseTwoDecomposition` of the operands, row lengths of all three) must agree. -/
 def evkAggregate (s1 s2 s3 : GShare α) : Res (GShare α) :=
   if s1.levelQ ≠ s2.levelQ ∨ s1.levelQ ≠ s3.levelQ then .err
   else if s1.levelP ≠ s2.levelP ∨ s1.levelP ≠ s3.levelP then .err
+  else if s1.base2 ≠ s2.base2 ∨ shapeOf s1.val ≠ shapeOf s2.val ∨ shapeOf s1.val ≠ shapeOf s3.val then .err
   else match aggRows s1.val s2.val s3.val with
     | some v => .ok { s3 with val := v }
     | none => .panic
@@ -175,34 +175,33 @@ def setKeyEntry : List α → α → List α → Option (List α)
   | b :: _, a, _ :: _ :: ks => some (b :: a :: ks)
   | _, _, _ => none
 
-/-- inner loop of `GenEvaluationKey` for `j < cnt` -/
-def keyRow : Nat → List (List α) → List α → List (List α) → Option (List (List α))
-  | 0, _, _, k => some k
-  | n + 1, m :: ms, p :: ps, k :: ks =>
-      match setKeyEntry m p k, keyRow n ms ps ks with
-      | some h, some t => some (h :: t)
-      | _, _ => none
-  | _ + 1, _, _, _ => none
-
-def keyRows (cnt : Nat) : Mat (List α) → Mat α → Mat (List α) → Option (Mat (List α))
+/-- inner loop of `GenEvaluationKey`: every power-of-two digit of the row -/
+def keyRow : List (List α) → List α → List (List α) → Option (List (List α))
   | [], _, k => some k
   | m :: ms, p :: ps, k :: ks =>
-      match keyRow cnt m p k, keyRows cnt ms ps ks with
+      match setKeyEntry m p k, keyRow ms ps ks with
       | some h, some t => some (h :: t)
       | _, _ => none
   | _ :: _, _, _ => none
 
-/-- `EvaluationKeyGenProtocol.GenEvaluationKey(share, crp, evk)`: the number of power-of-two
-    digits copied for EVERY RNS digit is `len(m[0])`. -/
+def keyRows : Mat (List α) → Mat α → Mat (List α) → Option (Mat (List α))
+  | [], _, k => some k
+  | m :: ms, p :: ps, k :: ks =>
+      match keyRow m p k, keyRows ms ps ks with
+      | some h, some t => some (h :: t)
+      | _, _ => none
+  | _ :: _, _, _ => none
+
+/-- `EvaluationKeyGenProtocol.GenEvaluationKey(share, crp, evk)`: levels and decompositions of the
+    share, the CRP and the key must agree; every row `[i][j]` is copied (`none`: a key entry without
+    the second component, e.g. a compressed key — index out of range). -/
 def genEvaluationKey (share : GShare α) (crp : Mat α) (evk : GShare α) : Res (GShare α) :=
   if share.levelQ ≠ evk.levelQ then .err
   else if share.levelP ≠ evk.levelP then .err
-  else match share.val with
-    | [] => .panic
-    | m0 :: _ =>
-      match keyRows m0.length share.val crp evk.val with
-      | some v => .ok { evk with val := v }
-      | none => .panic
+  else if shapeOf share.val ≠ shapeOf crp ∨ shapeOf share.val ≠ shapeOf evk.val then .err
+  else match keyRows share.val crp evk.val with
+    | some v => .ok { evk with val := v }
+    | none => .panic
 
 /-- what `GenEvaluationKey` is meant to produce: every entry `(share[i][j][0], crp[i][j])` -/
 def evkAssemble (share : Mat (List α)) (crp : Mat α) : Mat (List α) :=
@@ -216,13 +215,11 @@ structure GalShare (α : Type) where
   deriving Repr, BEq, DecidableEq
 
 /-- `GaloisKeyGenProtocol.GenShare`: an evaluation-key share from `s` to `σ_{g⁻¹}(s)`, tagged
-    with `g`.  `sigInv` is the automorphism `X ↦ X^{g⁻¹}`. -/
-def galGenShare (sigInv : α → α) (skLvl : Nat) (s : α) (galEl : Nat) (crp w e : Mat α)
-    (out : GalShare α) : Res (GalShare α) :=
-  -- `ringP := gkg.params.RingP().AtLevel(levelP)` is evaluated before the `levelP > -1` guard:
-  -- nil dereference (no P) or `panic("level cannot be negative")`
-  if out.sh.levelP < 0 then .panic
-  else (evkGenShare skLvl skLvl s (sigInv s) crp w e out.sh).bind fun sh => .ok ⟨galEl, sh⟩
+    with `g`.  `sigInv` is the automorphism `X ↦ X^{g⁻¹}`; the automorphed key lives in the protocol's
+    buffer, whose levels are `bufLvl`, `bufLvlP` (the maximum levels of the parameters). -/
+def galGenShare (sigInv : α → α) (skLvl bufLvl : Nat) (skLvlP bufLvlP : Int) (s : α) (galEl : Nat)
+    (crp w e : Mat α) (out : GalShare α) : Res (GalShare α) :=
+  (evkGenShare skLvl bufLvl skLvlP bufLvlP s (sigInv s) crp w e out.sh).bind fun sh => .ok ⟨galEl, sh⟩
 
 /-- `GaloisKeyGenProtocol.AggregateShares` -/
 def galAggregate (s1 s2 s3 : GalShare α) : Res (GalShare α) :=
